@@ -42,9 +42,33 @@ def two_dir_table():
     return t
 
 
+def _first_byte_is_separator(decisions, gp):
+    """the path so far has established that the first byte of the guest string gp is '/' (an absolute guest path)"""
+    g0 = pe.strip_casts(gp) if is_sym(gp) else gp
+    for dec in decisions:
+        c, t = dec[0], dec[1]
+        c0 = pe.norm_cond(c)
+        if not (is_sym(c0) and c0.op == '==' and t and len(c0.args) == 2):
+            continue
+        for x, y in ((c0.args[0], c0.args[1]), (c0.args[1], c0.args[0])):
+            if y != 47:
+                continue
+            x0 = pe.strip_casts(x)
+            if is_sym(x0) and x0.op == 'index' and x0.args[1] == 0 and pe.strip_casts(x0.args[0]) == g0:
+                return True
+            if is_sym(x0) and x0.op == 'deref' and pe.strip_casts(x0.args[0]) == g0:
+                return True
+    return False
+
+
 def path_leafs(state):
     def resolve(interp, args, node):
         d, p, n, res = args
+        # an absolute guest path is used as is: resolvePath does not look at the directory then (R14.2 absolute-independent-of-directory
+        # decides that on resolvePath itself), so whatever directory string accompanies a path already tested to start with '/' is
+        # recorded as the descriptor's own
+        if isinstance(d, str) and _first_byte_is_separator(getattr(interp.path, 'decisions', []), p):
+            d = ('any-directory-for-absolute-path', d)
         state.setdefault('resolves', []).append((d, p, n))
         interp.event('resolvePath', (pe._hashable(d), pe._hashable(p), pe._hashable(n)), node)
         if not interp.decide(unk('resolve-ok-%d' % len(state['resolves'])), node):
@@ -240,7 +264,8 @@ def check_path_imports(chk, tu):
                     from .c14 import _strip_data as _sd
                     g0 = pe.strip_casts(_sd(pe.strip_casts(gp))) if is_sym(gp) else gp
                     got_res.append((a[0], g0, pe.strip_casts(a[2]) if is_sym(a[2]) else a[2]))
-                okr = all(g in want_res for g in got_res) and (len(got_res) <= len(want_res))
+                anyd = lambda g: isinstance(g[0], tuple) and g[0] and g[0][0] == 'any-directory-for-absolute-path'
+                okr = all((g in want_res) or (anyd(g) and any(g[1:] == w[1:] for w in want_res)) for g in got_res) and (len(got_res) <= len(want_res))
                 chk.expect(okr, 'R14.1', inst + ':resolves-against-descriptor-path',
                            '%s resolves %r; each guest path must be resolved against the stored path of ITS OWN directory descriptor with its own '
                            'pointer and length: expected %r' % (imp, [(g[0], repr(g[1]), repr(g[2])) for g in got_res],
@@ -263,7 +288,8 @@ def check_path_imports(chk, tu):
                         fi, pi, li = triples[j]
                         gp = detail[2]
                         g0 = pe.strip_casts(_strip_data(pe.strip_casts(gp))) if is_sym(gp) else gp
-                        okd = detail[1] == DIR_SLOTS[j][1] and g0 == unk('p%d' % pi)
+                        okd = (detail[1] == DIR_SLOTS[j][1] or (isinstance(detail[1], tuple) and detail[1] and
+                                                                detail[1][0] == 'any-directory-for-absolute-path')) and g0 == unk('p%d' % pi)
                         chk.expect(okd, 'R14.1', inst + ':native-path-%d-is-its-own' % k,
                                    '%s: argument %d of %s() is the resolution of %r against %r; the specification pairs it with guest path '
                                    'parameter %d and directory %r (old/new swapped or resolved against the wrong descriptor)'
